@@ -233,7 +233,7 @@ def run_config_symbolic(pid, cfg, tier, seed):
                 _ctx.cur().backend = B      # assumptions made so far are visible to feasibility checks
                 mod.harness(cfg, B)
                 return B
-            for path in ex.run(fn):
+            for path in ex.run(fn, root_prefix=cfg.get('path_prefix')):
                 if path.exc is not None:
                     B = path.ctx.backend
                     B.case.obs = [Ob('no-exception', 'true', PB(tm.FALSE), meta={'exception': repr(path.exc)[:300]})]
@@ -525,7 +525,7 @@ def _eval_when(expr, obname, env=None, symbolic=False):
     m = re.search(r'\[(\d+)', obname)
     i = int(m.group(1)) if m else None
     e = _SymEnv() if symbolic else dict(env)
-    return eval(expr, {'__builtins__': {}, 'abs': abs, 'min': min, 'max': max}, {'env': e, 'i': i})
+    return eval(expr, {'__builtins__': {}, 'abs': abs, 'min': min, 'max': max, 'range': range, 'len': len}, {'env': e, 'i': i})
 
 
 def nice_model(goal, assume, B, timeout_ms):
